@@ -41,9 +41,9 @@ add("C13", "generated-input robustness testing (rapid: bytes, token soup, mutate
     "Arbitrary bytes, token soup, every .fer file of the repository damaged by syntactic and class-preserving mutations and re-laid-out with tabs/line breaks, and small projects with missing/self/cyclic/malformed imports are compiled for -t, wasm and native. Oracle: no internal crash or hang, exit 0 exactly when no error diagnostic was printed, a failure carries >=1 error located inside an input file, no artifact after failure, artifact after success. Exploration.",
     "Compilations run through a persistent process calling compiler.Compile (process creation is the bottleneck here); every violation is re-confirmed with the real CLI.",
     "DESIGN.md §4 C13")
-add("C18", "white-box invariant checking of the compiler's DataLayout over generated type expressions (rapid), both pointer sizes; black-box store/read-back programs via the C01/C02 machinery",
-    "Generated type expressions (mixed-width structs, nesting, fixed arrays, optionals, results, references) are laid out by mir.DataLayout for pointer sizes 8 and 4 and must satisfy: aligned, ordered, pairwise disjoint fields inside the object; size multiple of alignment; optional flag byte and result discriminant inside the object and outside the payloads. Exploration of the layout function; the run-time half is covered by generated programs.",
-    "The consumer-side offsets (optional flag at SizeOf(inner), result tag at alignTo(max(ok,err))) are taken from the emitters/runtime as documented; a change on the consumer side only is visible to the black-box part.",
+add("C18", "white-box invariant checking of the compiler's DataLayout over generated type expressions (rapid), both pointer sizes; black-box differential testing of generated store/copy/pass programs against the reference interpreter",
+    "(a) Generated type expressions (mixed-width structs, nesting, fixed arrays, optionals, results, references) are laid out by mir.DataLayout for pointer sizes 8 and 4 and must satisfy: aligned, ordered, pairwise disjoint fields inside the object; size multiple of alignment; optional flag byte and result discriminant inside the object and outside the payloads. (b) One case in about sixty is a generated program: structs of 1-5 fields over 8-64 bit integers and bools (nested structs, small arrays as fields), arrays of such structs and small-integer arrays between canary variables are stored element-wise, field-wise and as wholes, copied, updated by value through functions; after every step every leaf of every variable is printed and must equal what the reference interpreter computes. Exploration.",
+    "The consumer-side offsets of optionals / results are taken from the emitters as documented. The black-box programs run on the native target only (structs are not supported by the wasm back end); structs inside result types are not supported by the native back end and not generated.",
     "DESIGN.md §4 C18")
 
 add("C14", "metamorphic repetition testing: generated multi-module projects compiled K times by the real CLI under generated GOMAXPROCS/hook schedules; outputs compared byte for byte",
